@@ -215,6 +215,9 @@ func (c *Cluster) gracefulDeletePod(ns, name string) error {
 	ts := metav1.NewTime(verifclock.Now())
 	cur.DeletionTimestamp = &ts
 	cur.DeletionGracePeriodSeconds = &grace
+	// the kubelet plays the role of a finalizer; without one the fake client
+	// would drop a terminating object on its next update/patch
+	cur.Finalizers = append(cur.Finalizers, "verif/kubelet")
 	c.rawUpdate(GVKPod, cur)
 	return nil
 }
